@@ -89,3 +89,131 @@ pub open spec fn op_post(o: Seq<Code>, n: Seq<Code>, s: St, k: Bop, t: Temporary
     &&& eqv(run(n, s), set(s0, t, v), iset![2int, 3int], if k is Rem { iset![slot_addr(s0, 0)] } else { ISet::<int>::empty() })
     &&& get(run(n, s), t) == v
 }
+
+// ---- literal synthesis (load_immediate) -------------------------------------------------------
+/// k-th 16-bit halfword of a 64-bit word
+pub open spec fn hw(v: u64, k: u64) -> u64 { (v >> (16 * k)) & 0xffff }
+
+/// halfwords below `i` already equal those of `v`, the others hold the ignored pattern `ig`
+pub open spec fn hw_progress(r: u64, v: u64, ig: u64, i: int) -> bool {
+    &&& hw(r, 0) == (if 0 < i { hw(v, 0) } else { ig })
+    &&& hw(r, 1) == (if 1 < i { hw(v, 1) } else { ig })
+    &&& hw(r, 2) == (if 2 < i { hw(v, 2) } else { ig })
+    &&& hw(r, 3) == (if 3 < i { hw(v, 3) } else { ig })
+}
+
+/// all halfwords of `v` below `i` equal the ignored pattern (nothing had to be emitted so far)
+pub open spec fn hw_skipped(v: u64, ig: u64, i: int) -> bool {
+    &&& (0 < i ==> hw(v, 0) == ig)
+    &&& (1 < i ==> hw(v, 1) == ig)
+    &&& (2 < i ==> hw(v, 2) == ig)
+    &&& (3 < i ==> hw(v, 3) == ig)
+}
+
+/// ASSUMED (Verus cannot reason about `>>` on signed operands with a signed shift amount; the
+/// identity is proved for all i64 and the four shifts by the loop-free Kani harness `halfword_bridge`):
+/// the halfword the exec code extracts with an arithmetic shift equals the logical-shift halfword.
+#[verifier::external_body]
+pub broadcast proof fn axiom_halfword_bridge(x: i64, sh: i64)
+    requires sh == 0 || sh == 16 || sh == 32 || sh == 48,
+    ensures ((#[trigger] (x >> sh)) & 0xFFFF) as u16 as u64 == ((x as u64) >> (sh as u64)) & 0xffff,
+{
+}
+
+pub broadcast proof fn lemma_i2u_cast(x: i64)
+    ensures #[trigger] i2u(x) == x as u64,
+{
+    assert(x as u64 == (if x >= 0 { x as int } else { x as int + 0x1_0000_0000_0000_0000 }) as u64) by (bit_vector);
+}
+
+pub proof fn lemma_hw_movz(x: u64, k: u64)
+    requires x < 0x10000, k < 4,
+    ensures
+        hw(x << (16 * k), 0) == (if k == 0 { x } else { 0 }),
+        hw(x << (16 * k), 1) == (if k == 1 { x } else { 0 }),
+        hw(x << (16 * k), 2) == (if k == 2 { x } else { 0 }),
+        hw(x << (16 * k), 3) == (if k == 3 { x } else { 0 }),
+{
+    assert(((x << (16 * k)) >> (16 * 0u64)) & 0xffff == (if k == 0 { x } else { 0 })) by (bit_vector) requires x < 0x10000, k < 4;
+    assert(((x << (16 * k)) >> (16 * 1u64)) & 0xffff == (if k == 1 { x } else { 0 })) by (bit_vector) requires x < 0x10000, k < 4;
+    assert(((x << (16 * k)) >> (16 * 2u64)) & 0xffff == (if k == 2 { x } else { 0 })) by (bit_vector) requires x < 0x10000, k < 4;
+    assert(((x << (16 * k)) >> (16 * 3u64)) & 0xffff == (if k == 3 { x } else { 0 })) by (bit_vector) requires x < 0x10000, k < 4;
+}
+
+pub proof fn lemma_hw_movn(x: u64, k: u64)
+    requires x < 0x10000, k < 4,
+    ensures
+        hw(!(x << (16 * k)), 0) == (if k == 0 { !x & 0xffff } else { 0xffff }),
+        hw(!(x << (16 * k)), 1) == (if k == 1 { !x & 0xffff } else { 0xffff }),
+        hw(!(x << (16 * k)), 2) == (if k == 2 { !x & 0xffff } else { 0xffff }),
+        hw(!(x << (16 * k)), 3) == (if k == 3 { !x & 0xffff } else { 0xffff }),
+{
+    assert(((!(x << (16 * k))) >> (16 * 0u64)) & 0xffff == (if k == 0 { !x & 0xffff } else { 0xffff })) by (bit_vector) requires x < 0x10000, k < 4;
+    assert(((!(x << (16 * k))) >> (16 * 1u64)) & 0xffff == (if k == 1 { !x & 0xffff } else { 0xffff })) by (bit_vector) requires x < 0x10000, k < 4;
+    assert(((!(x << (16 * k))) >> (16 * 2u64)) & 0xffff == (if k == 2 { !x & 0xffff } else { 0xffff })) by (bit_vector) requires x < 0x10000, k < 4;
+    assert(((!(x << (16 * k))) >> (16 * 3u64)) & 0xffff == (if k == 3 { !x & 0xffff } else { 0xffff })) by (bit_vector) requires x < 0x10000, k < 4;
+}
+
+pub proof fn lemma_hw_movk(old: u64, x: u64, k: u64)
+    requires x < 0x10000, k < 4,
+    ensures
+        hw((old & !(0xffffu64 << (16 * k))) | (x << (16 * k)), 0) == (if k == 0 { x } else { hw(old, 0) }),
+        hw((old & !(0xffffu64 << (16 * k))) | (x << (16 * k)), 1) == (if k == 1 { x } else { hw(old, 1) }),
+        hw((old & !(0xffffu64 << (16 * k))) | (x << (16 * k)), 2) == (if k == 2 { x } else { hw(old, 2) }),
+        hw((old & !(0xffffu64 << (16 * k))) | (x << (16 * k)), 3) == (if k == 3 { x } else { hw(old, 3) }),
+{
+    assert((((old & !(0xffffu64 << (16 * k))) | (x << (16 * k))) >> (16 * 0u64)) & 0xffff == (if k == 0 { x } else { (old >> (16 * 0u64)) & 0xffff })) by (bit_vector) requires x < 0x10000, k < 4;
+    assert((((old & !(0xffffu64 << (16 * k))) | (x << (16 * k))) >> (16 * 1u64)) & 0xffff == (if k == 1 { x } else { (old >> (16 * 1u64)) & 0xffff })) by (bit_vector) requires x < 0x10000, k < 4;
+    assert((((old & !(0xffffu64 << (16 * k))) | (x << (16 * k))) >> (16 * 2u64)) & 0xffff == (if k == 2 { x } else { (old >> (16 * 2u64)) & 0xffff })) by (bit_vector) requires x < 0x10000, k < 4;
+    assert((((old & !(0xffffu64 << (16 * k))) | (x << (16 * k))) >> (16 * 3u64)) & 0xffff == (if k == 3 { x } else { (old >> (16 * 3u64)) & 0xffff })) by (bit_vector) requires x < 0x10000, k < 4;
+}
+
+pub proof fn lemma_hw_ext(a: u64, b: u64)
+    ensures (hw(a, 0) == hw(b, 0) && hw(a, 1) == hw(b, 1) && hw(a, 2) == hw(b, 2) && hw(a, 3) == hw(b, 3)) ==> a == b,
+{
+    if hw(a, 0) == hw(b, 0) && hw(a, 1) == hw(b, 1) && hw(a, 2) == hw(b, 2) && hw(a, 3) == hw(b, 3) {
+        assert(a == b) by (bit_vector)
+            requires (a >> (16 * 0u64)) & 0xffff == (b >> (16 * 0u64)) & 0xffff, (a >> (16 * 1u64)) & 0xffff == (b >> (16 * 1u64)) & 0xffff,
+                     (a >> (16 * 2u64)) & 0xffff == (b >> (16 * 2u64)) & 0xffff, (a >> (16 * 3u64)) & 0xffff == (b >> (16 * 3u64)) & 0xffff;
+    }
+}
+
+/// only the target register of the literal load changes
+pub open spec fn li_frame(a: St, b: St, r: Register) -> bool {
+    eqv(a, b, tmp_reg_set(Temporary::Register(r)), ISet::<int>::empty())
+}
+
+pub open spec fn movk_facts(old: u64, x: u64, k: u64) -> bool {
+    &&& hw(movk(old, x, (16 * k) as u64), 0) == (if k == 0 { x } else { hw(old, 0) })
+    &&& hw(movk(old, x, (16 * k) as u64), 1) == (if k == 1 { x } else { hw(old, 1) })
+    &&& hw(movk(old, x, (16 * k) as u64), 2) == (if k == 2 { x } else { hw(old, 2) })
+    &&& hw(movk(old, x, (16 * k) as u64), 3) == (if k == 3 { x } else { hw(old, 3) })
+}
+
+pub proof fn lemma_not16(h: u16)
+    ensures (!((!h) as u64)) & 0xffff == h as u64, ((!h) as u64) < 0x10000,
+{
+    assert((!((!h) as u64)) & 0xffff == h as u64) by (bit_vector);
+    assert(((!h) as u64) < 0x10000) by (bit_vector);
+}
+
+pub proof fn lemma_li_const()
+    ensures shl16(0, 0) == 0, !shl16(0, 0) == 0xffff_ffff_ffff_ffffu64,
+{
+    assert(0u64 << 0u64 == 0) by (bit_vector);
+    assert(!(0u64 << 0u64) == 0xffff_ffff_ffff_ffffu64) by (bit_vector);
+}
+
+pub proof fn lemma_hw_const()
+    ensures
+        hw(0, 0) == 0 && hw(0, 1) == 0 && hw(0, 2) == 0 && hw(0, 3) == 0,
+        hw(0xffff_ffff_ffff_ffff, 0) == 0xffff && hw(0xffff_ffff_ffff_ffff, 1) == 0xffff && hw(0xffff_ffff_ffff_ffff, 2) == 0xffff && hw(0xffff_ffff_ffff_ffff, 3) == 0xffff,
+        forall|v: u64, k: u64| k < 4 ==> #[trigger] hw(v, k) < 0x10000,
+{
+    assert((0u64 >> (16 * 0u64)) & 0xffff == 0 && (0u64 >> (16 * 1u64)) & 0xffff == 0 && (0u64 >> (16 * 2u64)) & 0xffff == 0 && (0u64 >> (16 * 3u64)) & 0xffff == 0) by (bit_vector);
+    assert((0xffff_ffff_ffff_ffffu64 >> (16 * 0u64)) & 0xffff == 0xffff && (0xffff_ffff_ffff_ffffu64 >> (16 * 1u64)) & 0xffff == 0xffff
+        && (0xffff_ffff_ffff_ffffu64 >> (16 * 2u64)) & 0xffff == 0xffff && (0xffff_ffff_ffff_ffffu64 >> (16 * 3u64)) & 0xffff == 0xffff) by (bit_vector);
+    assert forall|v: u64, k: u64| k < 4 implies #[trigger] hw(v, k) < 0x10000 by {
+        assert((v >> (16 * k)) & 0xffff < 0x10000) by (bit_vector);
+    }
+}
